@@ -382,7 +382,7 @@ def triage(prop, cands, binaries, max_groups=24):
 
 # ----------------------------------------------------------------------------------------------- checks
 ELEMS = ['ETriv', 'ETr', 'ENonTr', 'ENonTrX']
-VEC_ALL = [e + '_' + k for e in ELEMS for k in ('basic', 'mixed', 'limits')] + ['ETrivS_overlap']
+VEC_ALL = [e + '_' + k for e in ELEMS for k in ('basic', 'mixed', 'limits')] + ['ETrivS_overlap', 'Arith_basic']
 VEC_HOOKS = [e + '_' + k for e in ('ETr', 'ENonTr', 'ENonTrX') for k in ('basic', 'mixed', 'limits')]
 VEC_LIMITS = [e + '_limits' for e in ELEMS] + [e + '_basic' for e in ELEMS]
 VEC_SMALL = [e + '_' + k for e in ELEMS for k in ('basic', 'mixed')] + ['ETrivS_overlap']
@@ -401,8 +401,8 @@ def sjobs(profile, fams):
     return [('set', f, profile) for f in fams]
 
 
-HIST_RULE = ('seeded operation histories (profile "%s") over a pool of 2-5 vectors of one family (13 families: 4 element categories x '
-             '{basic, mixed, limits} allocator/size_type/N mixes + a pointer-overlap family); an evaluation is one run (one seed = one plan '
+HIST_RULE = ('seeded operation histories (profile "%s") over a pool of 2-5 vectors of one family (14 families: 4 instrumented element categories x '
+             '{basic, mixed, limits} allocator/size_type/N mixes + a pointer-overlap family + an arithmetic (double) element family); an evaluation is one run (one seed = one plan '
              'of ~25 operations plus its environment stream); distinct_nontrivial counts %s')
 CHECKS = {
     'C01': dict(level='exploration', jobs=vjobs('hist', VEC_ALL), quick=('asan', 40), thorough=[('plain', 420), ('asan', 300), ('plain20', 120)], cellprop='1',
@@ -433,7 +433,7 @@ CHECKS = {
     'C05': dict(level='exploration', jobs=vjobs('inline', VEC_ALL) + sjobs('setinline', SET_SMALL), quick=('asan', 40), thorough=[('plain', 420), ('asan', 240)], cellprop='5',
                 rule=HIST_RULE % ('inline: sizes biased to stay within N, heavy copy/move/swap/ctor between containers',
                                   '(type, operation kind, state class) cells executed while the inline promise was in force')),
-    'C06': dict(level='exploration', jobs=vjobs('hist', VEC_ALL) + vjobs('inline', VEC_SMALL) + sjobs('sethist', SET_FLAT + SET_SMALL), quick=('asan', 40),
+    'C06': dict(level='exploration', jobs=vjobs('hist', VEC_ALL) + vjobs('inline', VEC_SMALL) + sjobs('sethist', SET_FLAT + SET_SMALL) + vjobs('fault', ['ETriv_mixed', 'ETr_basic', 'ENonTr_mixed', 'ETriv_basic', 'ETr_limits']) + sjobs('setfault', ['ETriv_small', 'ETr_flat']), quick=('asan', 40),
                 thorough=[('plain', 420), ('asan', 300)], cellprop='1',
                 rule=HIST_RULE % ('hist/inline under 4 allocator kinds (amc wrapper over simulated basic allocator, std-like exact-count, std-like '
                                   'with reallocate, default amc::allocator over wrapped malloc)', '(type, operation, state classes, outcome) cells '
